@@ -11,3 +11,16 @@ chk('C02', 'exploration',
     'property-based testing (Hypothesis) against a numpy reference model + '
     'enumeration of selector-kind combinations',
     'DESIGN.md 7 C02')
+chk('C07', 'exploration',
+    'Generated-input search: about a thousand (quick) / tens of thousands '
+    '(thorough) generated files per run are saved in every netCDF flavour, '
+    'with and without compression, reopened by auto-detection and by named '
+    'format, and compared field by field with a numpy model that never '
+    'passed through the library (bit equality of unmasked data, masks, '
+    'dtypes, dimension order/flags, attribute kinds and values).',
+    'libnetcdf/netCDF4-python are trusted to store what they are given; '
+    'files are small (<=4 dims of length <=4); unlimited dimensions unused by '
+    'any variable are not representable and not generated.',
+    'property-based testing (Hypothesis), write/read round trip against an '
+    'independent numpy model',
+    'DESIGN.md 7 C07')
